@@ -33,9 +33,17 @@ def program_asts(max_random=None, small=None, rnd_items=None, rnd_nesting=None):
         for ast in gen.enum_small(3, False):
             add(ast)
     elif small == "thorough":
-        for ast in gen.enum_small(3, True):
+        for ast in gen.enum_small(2, True):
             add(ast)
-        for ast in gen.enum_small(4, False):
+        for ast in gen.enum_small(3, False):
+            add(ast)
+        # the full three-slot enumeration with branches (~120k texts) and the four-slot one without
+        # (~50k) are sampled (seeded): the whole would take hours per check
+        big = list(gen.enum_small(3, True))
+        for ast in rnd.sample(big, min(len(big), 15000)):
+            add(ast)
+        big = list(gen.enum_small(4, False))
+        for ast in rnd.sample(big, min(len(big), 8000)):
             add(ast)
     # pairs (thorough: triples) of depth-varying tokens, with and without a separator in between
     for ast in gen.enum_depth_pairs(triples=(small == "thorough")):
